@@ -234,7 +234,7 @@ func (w *world) e2x(id int) (string, string) {
 	if bystander {
 		name += "/bystander"
 	}
-	if err := w.reset(32768, 32768*2+100, uint64(7000+id), 524288); err != nil {
+	if err := w.reset(32768, 32768*2+100, uint64(7000+id), 524288, nil); err != nil {
 		return "store-setup:e2x", err.Error()
 	}
 	peer.VerifResetNumUnchoking()
